@@ -308,6 +308,24 @@ thread_local! {
     static STREAM: std::cell::RefCell<Option<(Arc<AtomicU64>, u64)>> = std::cell::RefCell::new(None);
 }
 
+/// SQLite spells an OFFSET without LIMIT `LIMIT -1 OFFSET n`: the standard spelling `OFFSET n` is rewritten for execution
+/// (the relational engine only; what a stock SQLite accepts from the SQLite translator is C17's business).
+pub fn limitless_offset(sql: &str) -> String {
+    let toks: Vec<&str> = sql.split(' ').collect();
+    let mut out: Vec<String> = Vec::with_capacity(toks.len() + 2);
+    for (i, t) in toks.iter().enumerate() {
+        if t.eq_ignore_ascii_case("OFFSET") && i + 1 < toks.len() && toks[i + 1].trim_end_matches(|c: char| !c.is_ascii_digit()).parse::<u64>().is_ok() {
+            let limited = i >= 2 && toks[i - 2].eq_ignore_ascii_case("LIMIT");
+            if !limited {
+                out.push("LIMIT".into());
+                out.push("-1".into());
+            }
+        }
+        out.push(t.to_string());
+    }
+    out.join(" ")
+}
+
 pub fn exec(conn: &Connection, sql: &str) -> Result<Rows, String> {
     STREAM.with(|st| {
         if let Some((state, seed0)) = st.borrow().as_ref() {
@@ -749,7 +767,7 @@ pub fn run_case(case: &J) -> J {
             return obs;
         }
     };
-    match exec(&conn, sql) {
+    match exec(&conn, &limitless_offset(sql)) {
         Ok(r) => {
             stages.insert("exec_orig".into(), json!("ok"));
             obs["orig"] = rows_json(&r);
@@ -758,7 +776,7 @@ pub fn run_case(case: &J) -> J {
             stages.insert("exec_orig".into(), json!(format!("err:{e}")));
         }
     }
-    match exec(&conn, &rendered) {
+    match exec(&conn, &limitless_offset(&rendered)) {
         Ok(r) => {
             stages.insert("exec_rend".into(), json!("ok"));
             obs["rend"] = rows_json(&r);
@@ -773,7 +791,7 @@ pub fn run_case(case: &J) -> J {
             stages.insert("reparse".into(), json!("ok"));
             obs["reparse_schema"] = schema_json(&r2);
             let again = render(&r2);
-            if let Ok(rr) = exec(&conn, &again) {
+            if let Ok(rr) = exec(&conn, &limitless_offset(&again)) {
                 obs["rend2"] = rows_json(&rr);
             }
         }
@@ -793,7 +811,7 @@ pub fn run_case(case: &J) -> J {
         let mut nj = json!({"name": n.name(), "kind": kind_of(n), "sig": node_signature(n), "roots": guarded(|| column_roots(n)).unwrap_or_default(), "schema": schema_json(n), "size": size_json(n),
                             "root": n == &relation});
         match guarded(|| render(n)) {
-            Ok(q) => match exec(&conn, &q) {
+            Ok(q) => match exec(&conn, &limitless_offset(&q)) {
                 Ok(r) => {
                     nj["rows"] = rows_json(&r)["rows"].clone();
                     nj["cols"] = json!(r.0);
